@@ -43,6 +43,16 @@ type Contract struct {
 	File     string
 }
 
+// Macro is a textual abbreviation usable in clauses: define name(a, b) = body
+type Macro struct {
+	Name   string
+	Params []string
+	Body   string
+	Pkg    string
+}
+
+var parsedMacros []*Macro
+
 var tagRe = regexp.MustCompile(`^\[([^\]]*)\]\s*`)
 
 func parseTags(rest string) ([]string, string, string) {
@@ -63,7 +73,7 @@ func parseTags(rest string) ([]string, string, string) {
 
 var clauseKeywords = map[string]bool{"func": true, "extern": true, "mode": true, "requires": true, "ensures": true,
 	"modifies": true, "decreases": true, "loop": true, "uses": true, "pure": true, "trusted": true, "let": true,
-	"tags": true, "opt": true, "ghost": true}
+	"tags": true, "opt": true, "ghost": true, "define": true}
 
 // parseContractFile reads the //@ lines of one file.
 func parseContractFile(path, pkg string) ([]*Contract, error) {
@@ -75,6 +85,7 @@ func parseContractFile(path, pkg string) ([]*Contract, error) {
 	var cur *Contract
 	var last *Clause
 	var lastLet *[2]string
+	var lastMacro *Macro
 	for ln, raw := range strings.Split(string(data), "\n") {
 		line := strings.TrimSpace(raw)
 		if !strings.HasPrefix(line, "//@") {
@@ -94,7 +105,9 @@ func parseContractFile(path, pkg string) ([]*Contract, error) {
 		where := fmt.Sprintf("%s:%d", filepath.Base(path), ln+1)
 		if !clauseKeywords[kw] {
 			// continuation of the previous clause
-			if last != nil {
+			if lastMacro != nil && last == nil && lastLet == nil {
+				lastMacro.Body += " " + line
+			} else if last != nil {
 				last.Text += " " + line
 			} else if lastLet != nil {
 				lastLet[1] += " " + line
@@ -103,7 +116,29 @@ func parseContractFile(path, pkg string) ([]*Contract, error) {
 			}
 			continue
 		}
+		if kw == "define" {
+			// define name(a, b) = body     (textual macro, package level)
+			kv := strings.SplitN(rest, "=", 2)
+			head := strings.TrimSpace(kv[0])
+			op := strings.Index(head, "(")
+			if len(kv) != 2 || op < 0 || !strings.HasSuffix(head, ")") {
+				return nil, fmt.Errorf("%s: bad define", where)
+			}
+			m := &Macro{Name: strings.TrimSpace(head[:op]), Body: strings.TrimSpace(kv[1]), Pkg: pkg}
+			for _, p := range strings.Split(head[op+1:len(head)-1], ",") {
+				if p = strings.TrimSpace(p); p != "" {
+					m.Params = append(m.Params, p)
+				}
+			}
+			parsedMacros = append(parsedMacros, m)
+			cur = nil
+			last = nil
+			lastLet = nil
+			lastMacro = m
+			continue
+		}
 		if kw == "func" || kw == "extern" {
+			lastMacro = nil
 			cur = &Contract{Pkg: pkg, Func: rest, Extern: kw == "extern", File: where, Opts: map[string]string{}}
 			if kw == "extern" {
 				cur.Pkg = ""
@@ -270,4 +305,72 @@ func desugarImplies(s string) string {
 		}
 	}
 	return flat
+}
+
+var identRe = regexp.MustCompile(`[A-Za-z_][A-Za-z_0-9]*`)
+
+// expandMacros expands the macros visible in package pkg (and the global ones).
+func expandMacros(text, pkg string, macros []*Macro) string {
+	byName := map[string]*Macro{}
+	for _, m := range macros {
+		if m.Pkg == "" || m.Pkg == pkg {
+			byName[m.Name] = m
+		}
+	}
+	if len(byName) == 0 {
+		return text
+	}
+	for round := 0; round < 30; round++ {
+		changed := false
+		locs := identRe.FindAllStringIndex(text, -1)
+		for _, loc := range locs {
+			name := text[loc[0]:loc[1]]
+			m := byName[name]
+			if m == nil || loc[1] >= len(text) || text[loc[1]] != '(' {
+				continue
+			}
+			if loc[0] > 0 && (text[loc[0]-1] == '.' ) {
+				continue
+			}
+			// matching paren
+			depth := 0
+			end := -1
+			for i := loc[1]; i < len(text); i++ {
+				if text[i] == '(' {
+					depth++
+				} else if text[i] == ')' {
+					depth--
+					if depth == 0 {
+						end = i
+						break
+					}
+				}
+			}
+			if end < 0 {
+				continue
+			}
+			args := splitTopLevel(text[loc[1]+1:end], ',')
+			if len(m.Params) == 0 {
+				args = nil
+			}
+			if len(args) != len(m.Params) {
+				continue
+			}
+			body := identRe.ReplaceAllStringFunc(m.Body, func(id string) string {
+				for i, p := range m.Params {
+					if p == id {
+						return "(" + strings.TrimSpace(args[i]) + ")"
+					}
+				}
+				return id
+			})
+			text = text[:loc[0]] + "(" + body + ")" + text[end+1:]
+			changed = true
+			break
+		}
+		if !changed {
+			break
+		}
+	}
+	return text
 }
